@@ -12,6 +12,7 @@ use std::sync::atomic::{AtomicU64, Ordering};
 use std::sync::{Arc, Mutex};
 
 pub struct Dummy;
+#[cfg_attr(feature = "asynctrait", ractor::async_trait)]
 impl Actor for Dummy {
     type Msg = ();
     type State = ();
